@@ -48,6 +48,19 @@ CHECKS = {
              note=T_BASE + '; the bounded whole-tree part is never counted as proved',
              technique='contracts on the real functions + symbolic execution + z3 (LIA) for the per-function part; native enumeration against an independent Hashmap specification (labelled bounded) for whole trees',
              design_ref='DESIGN.md §5 C10'),
+ 'C12': dict(category='other',
+             text='check_block_signatures accepts IFF the specification predicate holds (non-empty set, every signature names a listed '
+                  'validator by SHA256(magic++pubkey), verifies over magic++root_hash++file_hash under that key, signers pairwise '
+                  'distinct, 3*signed > 2*total), both directions, for SYMBOLIC non-negative weights, every assignment of signatures to '
+                  'validators/foreign keys (all multisets and orders incl. duplicates) and symbolic validity bits — with list lengths '
+                  'BOUNDED (<= 3 validators, <= 4 signatures).  Unbounded parts: the fragment after the loops, extracted mechanically '
+                  'from the real source (vf/loopcut.py), decides accept iff 3*signed > 2*total for arbitrary accumulated totals; one '
+                  'iteration of the signature loop from a state with havoced accumulators adds exactly the named validator\'s weight or '
+                  'raises (foreign / duplicate / invalid).  Ed25519 verification enters through its contract (uninterpreted predicate); '
+                  'a native boundary grid with real keys is the bounded stand-in.',
+             note=T_BASE + '; T6 Ed25519 verify as a deterministic predicate; list lengths bounded in the accept-iff obligation',
+             technique='contracts on the real function, symbolic execution over all paths (bounded list lengths, symbolic weights), loop cut with mechanically extracted fragments, z3 (LIA)',
+             design_ref='DESIGN.md §5 C12'),
  'C13': dict(category='proof',
              text='For ALL workchains -128..127 and ALL 32-byte hashes (symbolic): to_str lays out tag/workchain/hash/crc16 per the '
                   'specification in the requested alphabet, also after earlier renderings of the same object; Address(to_str(v)) == a with '
